@@ -88,6 +88,15 @@ impl Pipeline {
             | StageInput::Compiled(_, _, source) => source_hash(source),
         };
 
+        // The cache is keyed by the source text. An AST handed in by the caller (compile_ast)
+        // is not a function of that text, so such a request neither reads nor fills the
+        // cache, and it starts after the stages whose work the caller has already done.
+        let from_source = matches!(input, StageInput::Source(_));
+        let skip: &[&str] = match &input {
+            StageInput::Ast(_, _) => &["lexer", "parser"],
+            _ => &[],
+        };
+
         let mut current = input;
 
         for stage in &mut self.stages {
@@ -96,10 +105,14 @@ impl Pipeline {
             if stage_name == "vm" {
                 break;
             }
+            if skip.contains(&stage_name.as_str()) {
+                continue;
+            }
 
             let cache_key = (stage_name.clone(), hash);
 
-            if stage.cacheable()
+            if from_source
+                && stage.cacheable()
                 && let Some(cached) = self.cache.get(&cache_key)
                 && cached.source_hash == hash
             {
@@ -109,7 +122,7 @@ impl Pipeline {
 
             let output = stage.execute(current)?;
 
-            if stage.cacheable() && output.cacheable() {
+            if from_source && stage.cacheable() && output.cacheable() {
                 self.cache.insert(
                     cache_key,
                     CachedOutput {
